@@ -65,7 +65,7 @@ def rand_conv(rng, ty, ad, always=False):
     decline (3: the outer future must complete as a broken promise) or forward it to thread 2 (4)"""
     if ad != 3 and not (always or rng.random() < 0.1):
         return None
-    spec = rng.choice([0, 3, 3] if ty == "v" else [0, 1, 2, 3, 3, 3])
+    spec = rng.choice([0, 3, 3] if ty == "v" else [0, 1, 2, 3, 3, 3, 4, 4])
     if spec == 3:
         return [rng.choice([0, 1, 2, 3, 3, 4, 4]), rng.randint(1, 50), 3]
     cv = [rng.choice([0, 0, 1]), rng.randint(1, 50)]
@@ -107,6 +107,8 @@ def gen_ctl(seed, tier):
                 cv = rand_conv(rng, ty, ad, True) if ad == 3 else None
                 cases.append(mk("adapt" + co + ty, "s%d" % j, ad, mode, stor, k, rng.randint(1, 999), cv,
                                 rand_sched(rng, 10, 3) if (cv and cv[0] == 4) else [])); j += 1
+                if ad == 3 and ty != "v":   # a converter returning a reference: the outer future<To&> must refer to the converter's object
+                    cases.append(mk("adapt" + co + ty, "s%d" % j, ad, mode, stor, k, rng.randint(1, 999), [rng.choice([0, 0, 1]), rng.randint(1, 50), 4], [])); j += 1
                 if ad == 3:      # every behaviour of the promise-passing converter for every timing and outcome
                     for b in (2, 3, 4):
                         cases.append(mk("adapt" + co + ty, "s%d" % j, ad, mode, stor, k, rng.randint(1, 999), [b, rng.randint(1, 50), 3],
@@ -167,12 +169,13 @@ def gen_ctl(seed, tier):
     bad = [[[1, 1, 0, 0], [2, 0, 1]], [[1, 2, 2, 1], [2, 0, 1]], [[1, 7, 2, 0], [2, 0, 1]], [[2, 0, 1]], [[1, 0, 2, 0]],
            [[1, 0, 4, 0], [2, 0, 1]], [[1, 0, 2, 0], [2, 3, 1]], [[1, 3, 2, 0], [2, 0, 1], [3, 2, 2]], [[1, 3, 2], [2, 0, 1]], [],
            [[1, 0, 2, 5], [2, 0, 1]], [[1, 0, 3, 0], [2, 0, 1], [5, 0, 1]], [[1, 0, 2, 0], [2, 0, 1], [5, 3, 1]],
-           [[1, 3, 2, 0], [2, 0, 1], [3, 0, 2, 4]], [[1, 3, 2, 0], [2, 0, 1], [3, 3, 2, 0]], [[1, 3, 2, 0], [2, 0, 1], [3, 2, 2]],
+           [[1, 3, 2, 0], [2, 0, 1], [3, 0, 2, 5]], [[1, 3, 2, 0], [2, 0, 1], [3, 3, 2, 0]], [[1, 3, 2, 0], [2, 0, 1], [3, 2, 2, 4]], [[1, 3, 2, 0], [2, 0, 1], [3, 2, 2]],
            [[1, 3, 2, 0], [2, 0, 1], [3, 4, 2, 3], [5, 0, 1]], [[1, 3, 2, 0], [2, 0, 1], [3, 5, 2, 3]],
            [[1, 0, 2, 0], [2, 0, 1], [6, 0, 1]], [[1, 4, 2, 0], [2, 0, 1], [5, 0, 1], [6, 0, 1]], [[1, 4, 2, 0], [2, 0, 1], [6, 3, 1]]]
     for b, ops in enumerate(bad):
         cases.append(Case("adapt", "m%d" % b, ops + [[9, 0, 1]]))
     cases.append(Case("adaptv", "m90", [[1, 3, 2, 0], [2, 0, 1], [3, 0, 2, 1], [9, 0]]))
+    cases.append(Case("adaptv", "m91", [[1, 3, 2, 0], [2, 0, 1], [3, 0, 2, 4], [9, 0]]))
     return cases
 
 
